@@ -200,7 +200,7 @@ func (g *c04Gen) scalarValue(s string, fault bool) c04Val {
 		if r.Bool() {
 			return mkInt(Pick(r, []int64{0, 3, -8, 16777217}))
 		}
-		return mkFloat(Pick(r, []float64{0.5, -2.25, 1e10, 0.1, 3.4e38}))
+		return mkFloat(Pick(r, []float64{0.5, -2.25, 1e10, 0.1, 3.4e38, 3.5e38, 1e39, -1e300}))
 	case "float64":
 		if r.Bool() {
 			return mkInt(Pick(r, []int64{0, 3, 1<<53 + 1}))
